@@ -273,7 +273,8 @@ impl SauceData {
             data.len() - SAUCE_LEN
         };
 
-        let offset = len - 1; // -1 is from the EOF char
+        // the EOF character in front of the record (and comment block) belongs to the SAUCE trailer - if it is there
+        let offset = if len > 0 && data[len - 1] == 0x1A { len - 1 } else { len };
 
         Ok(Some(SauceData {
             title,
